@@ -7,7 +7,7 @@ import math
 import numpy as np
 import torch
 
-from ..kernel import World, stream
+from ..kernel import World, stream, scribble
 
 DTS = [1.0, 0.5, 0.25, 2.0, 0.1, 1.3]
 DYADIC = {1.0, 0.5, 0.25, 2.0}
@@ -240,8 +240,11 @@ class NeuronWorld(World):
             kw = {"refrac_lock": lock}
             if adaptive_thr or adaptive_cur:
                 kw["adapt"] = op.get("adapt")
+            xin = x.clone()
             with ctx.impl("forward", facts):
-                out = nrn(x, **kw)
+                out = nrn(xin, **kw)
+            if t % 2 == 0:
+                scribble(ctx, [xin])
             t += 1
             ctx.step(1, dt)
             ctx.log("step", x, out)
